@@ -2,6 +2,7 @@ package rules
 
 import (
 	"fmt"
+	"go/ast"
 	"go/token"
 	"go/types"
 	"sort"
@@ -377,6 +378,19 @@ func forwardFlow(p *core.Prog, src ssa.Value, sink func(c ssa.CallInstruction, a
 			case *ssa.MapUpdate:
 				if y.Value == x || y.Key == x {
 					push(y.Map)
+				}
+			case *ssa.Return:
+				// what a module function returns is what its callers receive
+				// (unexported helpers only: following every exported getter to all of its callers would
+				// leave the unit the flow is about)
+				if fn := y.Parent(); fn != nil && p.InModule(fn) && fn.Parent() == nil && !ast.IsExported(fn.Name()) {
+					for _, st := range p.Callers(fn) {
+						if c, ok := st.Site.(ssa.CallInstruction); ok && core.CalleeFn(c) == fn {
+							if v, ok := st.Site.(ssa.Value); ok {
+								push(v)
+							}
+						}
+					}
 				}
 			case ssa.CallInstruction:
 				cc := y.Common()
